@@ -43,14 +43,25 @@ class BpNode(object):
         self.sim = sim
         self.name = name
         self.node_id = node_id
-        cfg = bp_config.Config(node_id=node_id, **cfg_kwargs)
+        if cfg_kwargs.pop('via_file', False):
+            # the way the daemon is configured: a document read by the real Config.from_file() (node id and route tables included)
+            import io  # pylint: disable=import-outside-toplevel
+            import json  # pylint: disable=import-outside-toplevel
+            doc = dict(cfg_kwargs, node_id=node_id,
+                       rx_route_table=[dict(eid_pattern=pattern, action=action) for (pattern, action) in rx_routes],
+                       tx_route_table=[dict(eid_pattern=route['pattern'], next_nodeid=route.get('next', 'dtn://next/'), cl_type=route.get('cl', 'fake'))
+                                       for route in tx_routes])
+            cfg = bp_config.Config()
+            cfg.from_file(io.StringIO(json.dumps({'bp': doc})))
+        else:
+            cfg = bp_config.Config(node_id=node_id, **cfg_kwargs)
+            for (pattern, action) in rx_routes:
+                cfg.rx_route_table.append(bp_config.RxRouteItem(eid_pattern=re.compile(pattern), action=action))
+            for route in tx_routes:
+                cfg.tx_route_table.append(bp_config.TxRouteItem(
+                    eid_pattern=re.compile(route['pattern']), next_nodeid=route.get('next', 'dtn://next/'),
+                    cl_type=route.get('cl', 'fake'), mtu=route.get('mtu'), raw_config=route.get('raw', {'route': route['pattern']})))
         cfg._bus_conn = dbus.bus.BusConnection('vf-bus-bp-' + name)
-        for (pattern, action) in rx_routes:
-            cfg.rx_route_table.append(bp_config.RxRouteItem(eid_pattern=re.compile(pattern), action=action))
-        for route in tx_routes:
-            cfg.tx_route_table.append(bp_config.TxRouteItem(
-                eid_pattern=re.compile(route['pattern']), next_nodeid=route.get('next', 'dtn://next/'),
-                cl_type=route.get('cl', 'fake'), mtu=route.get('mtu'), raw_config=route.get('raw', {'route': route['pattern']})))
         self.cfg = cfg
         self.cl = FakeCl(sim)
         self.observed = []  # dicts
